@@ -62,6 +62,11 @@ chk("C02", "llsym", "translation_validation",
     "Trusted: llsym IR semantics and models; the stub library's contract; demangling by llvm-cxxfilt. Class instances are opaque objects. Outside: class arguments/results by value, std::vector, struct arguments, templates, function pointers, exceptions, allocation failure. Native replay exists for the string libraries; for the class library a violation is the symbolic result only (stated in the output).",
     "bounded symbolic execution of the LLVM IR of generated code (llsym) against a reference model derived from the declaration", "DESIGN.md 3/C02")
 
+chk("C06", "llsym", "translation_validation",
+    "Three parts over four generated libraries (ownership, classes, C++ strings, C strings). (1) Every generated wrapper under llsym with exact-fit buffers: all reads/writes bounds- and liveness-checked, every temporary (malloc/new/std::string) the wrapper creates is released exactly once by the matching deallocator before it returns, caller-owned results carry a non-zero destructor index and library-owned results carry 0. (2) The hand-off table idtor -> (type, allocator family) collected from those runs: one index, one way of releasing. (3) One inductive step of the generated <PREFIX>_SHROUD_memory_destructor from every pre-state {idtor in [-1, max+2]} x {NULL, live object of the family the table names}: exactly one release by the matching deallocator (after the class / std::string destructor) for table indices and none otherwise, post-state {NULL, 0}, a second call releases nothing - which covers call histories of any length under the stated representation invariant.",
+    "Trusted: llsym IR semantics and allocator/std::string models; stub library contract; the representation invariant (established by parts 1-2). Outside: the Fortran finaliser/assignment, Python capsule destructors and reference counts, std::vector copies, allocation failure. String-library violations are replayed natively under ASan; others are confirmed by re-execution of the harness.",
+    "bounded symbolic execution of the LLVM IR of generated code (llsym): memory-safety queries, allocation/release event pairing, one inductive step of the release function", "DESIGN.md 3/C06")
+
 NA = {
  "C01": "generated Fortran run-time behaviour: no Fortran front end yields anything a solver can execute; C-side kernels covered under C02/C06/C10",
  "C04": "finite structural comparison of two emitted texts with a Fortran processor's interoperability rules as oracle; nothing symbolic to decide",
